@@ -109,15 +109,15 @@ type KeysetInfo struct {
 }
 
 type MintBook struct {
-	Name    string
-	Sigs    map[string]*SigRec
-	SigSeq  []string
-	Secrets map[string]*SecretRec
-	MQ      map[string]*MQRec
-	MQOrder []string
-	LQ      map[string]*LQRec
-	LQOrder []string
-	Keysets map[string]*KeysetInfo
+	Name     string
+	Sigs     map[string]*SigRec
+	SigSeq   []string
+	Secrets  map[string]*SecretRec
+	MQ       map[string]*MQRec
+	MQOrder  []string
+	LQ       map[string]*LQRec
+	LQOrder  []string
+	Keysets  map[string]*KeysetInfo
 	MQByHash map[string]string
 }
 
